@@ -121,7 +121,7 @@ def signature(pid, what, source, case, events, i=0, opts_tag=""):
     lit = _ev(events, "Lit")
     if lit:
         pos = lit.get("pos", "")
-        return "%s|%s|%s|%s%s" % (source, what, lit.get("kind"), lit_features(lit), (";pos=" + pos) if pos.endswith("_par") else "")
+        return "%s|%s|%s|%s%s" % (source, what, lit.get("kind"), lit_features(lit), (";pos=" + pos) if pos.endswith("_par") or pos.endswith("_cat") else "")
     f, r, x = _ev(events, "Format"), _ev(events, "Reparse"), _ev(events, "Reformat")
     meta = case.get("meta", {}) or {}
     tag = meta.get("sig") or ""
